@@ -205,6 +205,11 @@ func (r *vsRun) genDef(name string, existing []string) string {
 	if strings.HasPrefix(name, "mark/") {
 		return rapid.SampledFrom(vsIDs).Draw(rt, "markdef")
 	}
+	// liveness only (C09): a definition whose evaluation fails every time (it names a converter that does not exist);
+	// the tag must end up decided all the same instead of being evaluated again and again
+	if r.e != nil && r.cfg.focus == "C09" && name != "tag/d" && rapid.IntRange(0, 19).Draw(rt, "failingdef") == 0 {
+		return "cdata.nope:aa"
+	}
 	pools := [][]string{vsPlain, vsPlain, vsData, vsData}
 	// definitions with a sub-query are kept apart: only tag/d gets them and no other tag refers to tag/d, so that
 	// neither a negation above a pending sub-query tag nor a sub-query inside a sub-query can arise (open findings
